@@ -136,7 +136,7 @@ class C26(Check):
     technique = "TLA+ outcome automaton (Startup.tla); real binary under a pty on enumerated corruptions; TLC trace validation"
     trusted = ["Python pty driver and outcome classifier", "Go harness: ELF64 writer", "TLC, CommunityModules Json"]
     rule = ("inputs: argument vectors (none, two, missing file, directory, empty file, text file); structured ELF files "
-            "(valid program; types none/rel/core; no executable section; overlapping sections / segments; no loadable "
+            "(valid programs entered at every one of their instructions; types none/rel/core; no executable section; overlapping sections / segments; no loadable "
             "segment; memory size below file size; memory size 2^40 and 2^62; undecodable word; truncated word; entry "
             "point mid-instruction / outside; jump out of the code / into an instruction; wrong class, endianness); "
             "mutations of a good file: truncation at every header / table / data boundary +-1, every ELF-header, "
@@ -161,6 +161,15 @@ class C26(Check):
         add("emptyfile", args="empty")
         add("textfile", args="text")
         add("valid", elf_desc())
+        # valid programs entered at every one of their instructions (inside a basic block, at a branch, at a branch target)
+        for i in range(1, 5):
+            add("valid", elf_desc(entry=0x1000 + 4 * i))
+        straight = [i_type(0x13, 0, r, 0, r) for r in range(1, 7)]
+        loop = [i_type(0x13, 0, 1, 0, 3), i_type(0x13, 0, 1, 1, -1), b_type(0x63, 1, 1, 0, -4), i_type(0x13, 0, 2, 0, 1),
+                j_type(0x6F, 0, -16), i_type(0x13, 0, 3, 0, 1)]
+        for ws in (straight, loop):
+            for i in range(len(ws)):
+                add("valid", elf_desc(words=ws, entry=0x1000 + 4 * i))
         add("tiny", elf_desc(words=[i_type(0x13, 0, 1, 0, 1)]))       # listing shorter than the view's minimum: ui or error
         add("valid", elf_desc(etype=3))
         add("valid", elf_desc(extra_sects=[{"name": ".data", "stype": 1, "flags": 3, "addr": a8(0x2000), "content": [1, 2, 3, 4], "size": 4}],
